@@ -84,7 +84,7 @@ def classify(impl, op, code):
     k = op[0]
     if k == 'setvaluedt':
         return 'value-datatype-object'
-    if k in ('setvaluechain', 'setvalue'):
+    if k in ('setvaluechain', 'setvalue', 'setvaluenone'):
         return 'value-assignment'
     if k == 'setdatatype':
         return 'datatype-change'
